@@ -476,21 +476,29 @@ def sibling_names_unique(prog, cg, eff, chk, rid):
                                   else 'no throw depends on the look-up'))
 
 
-def ids_never_reused(prog, cg, eff, chk, rid):
+def ids_never_reused(prog, cg, eff, chk, rid, what='crate'):
     cats = rowrules.version_catalogs(prog)
     n = 0
-    for qn in (V1 + 'engine_database_impl::create_root_crate', V1 + 'engine_crate_impl::create_sub_crate',
+    if what == 'crate':
+        ops = (V1 + 'engine_database_impl::create_root_crate', V1 + 'engine_crate_impl::create_sub_crate',
                V2 + 'database_impl::create_root_crate', V2 + 'crate_impl::create_sub_crate',
-               V2 + 'crate_impl::create_sub_crate_after'):
+               V2 + 'crate_impl::create_sub_crate_after')
+        tabs = ('crate', 'list', 'playlist')
+    else:
+        ops = (V1 + 'create_track', V2 + 'create_track')
+        tabs = ('track',)
+    for qn in ops:
         gen2 = qn.startswith(V2)
         for f, ip, ret in evaluate(prog, cg, eff, qn):
             chk.analysed(f)
             by_site = {}
+            site_func = {}
             for w in ip.writes:
-                if w.kind == 'insert' and (w.table or '').lower() in ('crate', 'list', 'playlist'):
+                if w.kind == 'insert' and (w.table or '').lower() in tabs:
                     by_site.setdefault((w.loc, w.table), {})[(w.column or '').lower()] = w.value
+                    site_func[(w.loc, w.table)] = w.func
             if not by_site:
-                raise AnalysisBroken('T16: %s reaches no insert into the crate table' % qn)
+                raise AnalysisBroken('%s reaches no insert into the %s table' % (qn, what))
             for (loc, table), cols in sorted(by_site.items()):
                 n += 1
                 inst = '%s: INSERT INTO %s at %s' % (_short(qn), table, loc)
@@ -500,17 +508,28 @@ def ids_never_reused(prog, cg, eff, chk, rid):
                                 and 'MAX' in x[1].upper()]
                     if from_max:
                         chk.violation(rid, '%s|id = MAX(id) + 1' % _short(qn), loc,
-                                      '%s takes the new id from %s: when the crate with the highest id has been removed, '
-                                      'its id is given to the next crate created - crate_by_id of the removed crate finds '
-                                      'a crate again and a handle to the removed crate becomes valid, now naming another '
-                                      'crate' % (inst, from_max[0][1][4:].strip()))
+                                      '%s takes the new id from %s: when the %s with the highest id has been removed, '
+                                      'its id is given to the next one created - a look-up by the removed id finds '
+                                      'a row again and a handle to the removed %s becomes valid, now naming another '
+                                      'one' % (inst, from_max[0][1][4:].strip(), what, what))
                     else:
                         chk.unknown(rid, inst, 'the id is supplied from %s: not judged' % vf.shape(cols['id'])[:60])
                     continue
                 bad = []
                 seen_table = False
+                # the versions this statement runs on: the schema guards around it
+                from .. import rowmap as _rowmap
+                order = rowrules.enum_order(prog)
+                lo_g, hi_g = 0, len(order) - 1
+                wf = site_func.get((loc, table))
+                if wf is not None:
+                    for st_ in eff.sites(wf):
+                        if locstr(st_.node) == loc:
+                            lo_g, hi_g = _rowmap.schema_guard(wf, st_.node, order)
                 for en, c in sorted(cats.items()):
                     if rowrules._gen2(en) != gen2:
+                        continue
+                    if en in order and not (lo_g <= order.index(en) <= hi_g):
                         continue
                     r = rowrules.lookup_table(c, table)
                     if r is None or r[0] != 'table':
@@ -524,8 +543,8 @@ def ids_never_reused(prog, cg, eff, chk, rid):
                 elif bad:
                     chk.violation(rid, '%s|rowid without AUTOINCREMENT' % _short(qn), loc,
                                   '%s leaves the id to SQLite, and in %s the id column of %s is a plain INTEGER PRIMARY KEY: '
-                                  'SQLite hands out max(rowid) + 1, so the id of a removed last crate is reused' % (
-                                      inst, ', '.join(bad), table))
+                                  'SQLite hands out max(rowid) + 1, so the id of a removed last %s is reused' % (
+                                      inst, ', '.join(bad), table, what))
                 else:
                     chk.ok(rid, inst + ': id assigned by an AUTOINCREMENT column in every version that has the table', loc)
     return n
